@@ -4,6 +4,7 @@ package checks
 import (
 	"encoding/json"
 	"fmt"
+	"go/types"
 	"os"
 
 	"bmverif/internal/core"
@@ -72,4 +73,14 @@ func Explain(path string) int {
 		fmt.Println("current:  obligation instance no longer present on this tree")
 	}
 	return 0
+}
+
+// ResetGlobals clears the process-wide memo tables of the engines (they are keyed by objects of one
+// loaded Program; `check-all` runs several checks in one process).
+func ResetGlobals() {
+	moConfiner = nil
+	moEffectMemo = map[types.Object]string{}
+	moFxMemo = map[types.Object]*moFx{}
+	fieldValCache = map[*types.Var]map[string]bool{}
+	fieldValOK = map[*types.Var]bool{}
 }
